@@ -28,15 +28,27 @@ def exchange_faults(ctx, only=None):
     ppath = os.path.join(ctx.work, "fault_plans.ndjson")
     vlib.write_ndjson(ppath, plans)
     binary = ctx.build_driver("client")
-    tpath, opath = os.path.join(ctx.work, "fault_trace.ndjson"), os.path.join(ctx.work, "fault_results.ndjson")
     reps = 2 if ctx.quick else 12
-    rc, out = ctx.run_driver(binary, test_run="^TestFaults$", env={"VERIF_FAULT_CASES": ppath, "VERIF_TRACE": tpath, "VERIF_OUT": opath, "VERIF_FAULT_REPS": reps}, timeout=1200)
+    cov = {}
+    for tag, test, nexp in (("injecting", "TestFaults", reps * len(plans)), ("default", "TestDefaultDialer", None)):
+        if only and tag == "default":
+            continue
+        _fault_runs(ctx, binary, ppath, plans, reps, only, tag, test, nexp, cov)
+    if not only:
+        ctx.extra_cov = dict(getattr(ctx, "extra_cov", {}), **cov)
+
+
+def _fault_runs(ctx, binary, ppath, plans, reps, only, tag, test, nexp, cov):
+    import json, os, re
+    import vlib
+    tpath, opath = os.path.join(ctx.work, "fault_trace_%s.ndjson" % tag), os.path.join(ctx.work, "fault_results_%s.ndjson" % tag)
+    rc, out = ctx.run_driver(binary, test_run="^%s$" % test, env={"VERIF_FAULT_CASES": ppath, "VERIF_TRACE": tpath, "VERIF_OUT": opath, "VERIF_FAULT_REPS": reps}, timeout=1500)
     if rc != 0 or not os.path.exists(opath):
-        raise vlib.Inconclusive("fault driver failed rc=%s\n%s" % (rc, out[-3000:]))
+        raise vlib.Inconclusive("fault driver (%s) failed rc=%s\n%s" % (test, rc, out[-3000:]))
     res = vlib.read_ndjson(opath)
     summ = [x for x in res if x.get("summary")]
-    if not summ or summ[0]["cases"] != reps * len(plans):
-        raise vlib.Inconclusive("fault driver ran %s of %d cases" % (summ, reps * len(plans)))
+    if not summ or (nexp is not None and summ[0]["cases"] != nexp):
+        raise vlib.Inconclusive("fault driver (%s) ran %s cases, expected %s" % (test, summ, nexp))
     flagged = set()
     for x in res:
         if x.get("summary"):
@@ -128,8 +140,11 @@ def exchange_faults(ctx, only=None):
                 json.dumps(r[0]), json.dumps(ev), json.dumps(r[:60])))
         remaining = remaining[badi + 1:]
     ctx.traces_validated += accepted
-    ctx.extra_cov = {"fault_plans": len(plans), "fault_runs": len(runs), "fault_events_validated": len(log),
-                     "fault_rule": "every fault plan of ExchangeFaults.tla (exchange 1 = the version negotiation inside Dial, or the first call; write failing at the client's socket with broken pipe / closed / reset / short write; server closing or resetting before replying, after half of the response, right after the complete response; once or on every connection) x %d repetitions (the client reads whole messages or three bytes at a time), on an unmodified client in one synctest bubble: no hang, no panic, own response or error, at most 4 transmissions and 4 dials per call, errors only in exchanges a failure hit, recovery in the next exchange, calls fail after Close, no goroutine left; every run validated by TLC against TraceExchangeFaults.tla" % reps}
+    if tag == "default":
+        cov.update({"default_dialer_runs": len(runs), "default_dialer_rule": "the plans whose failures a server can cause, through the client's default dialer (crypto/tls over loopback TCP, DialContext with a context cancelled right after it returned): same event log, same TLC validation"})
+        return
+    cov.update({"fault_plans": len(plans), "fault_runs": len(runs), "fault_events_validated": len(log),
+                     "fault_rule": "every fault plan of ExchangeFaults.tla (exchange 1 = the version negotiation inside Dial, or the first call; write failing at the client's socket with broken pipe / closed / reset / short write; server closing or resetting before replying, after half of the response, right after the complete response; once or on every connection) x %d repetitions (the client reads whole messages or three bytes at a time), on an unmodified client in one synctest bubble: no hang, no panic, own response or error, at most 4 transmissions and 4 dials per call, errors only in exchanges a failure hit, recovery in the next exchange, calls fail after Close, no goroutine left; every run validated by TLC against TraceExchangeFaults.tla" % reps})
 
 
 def run(ctx):
